@@ -50,8 +50,29 @@ def call(ex, f, args, kw, st, node=None):
             return h(f, args, kw, st)
         raise OutsideSubset('call of opaque %s' % f.name)
     if isinstance(f, Sym):
+        h = getattr(ex, 'call_opaque_scls', None)
+        if h and type(f).__name__ == 'SCls':
+            return h(f, args, kw, st)
         raise OutsideSubset('call of %r' % (f,))
     # ---- real python callables
+    if f is super and not args:
+        import sys as _sys
+        parts = ex.fn.split('.')
+        owner = None
+        for i in range(len(parts) - 1, 0, -1):
+            m = _sys.modules.get('.'.join(parts[:i]))
+            if m is not None:
+                owner = m
+                for p_ in parts[i:-1]:
+                    owner = getattr(owner, p_)
+                break
+        first = None
+        node = source().get(ex.fn)
+        if node is not None and node.args.args:
+            first = st.env.get(node.args.args[0].arg)
+        if owner is None or first is None:
+            raise OutsideSubset('super() outside a method')
+        return [(st, Opaque('super', {'cls': owner, 'self': first}))]
     if f is len:
         return [(st, py_len(ex, args[0], st))]
     if f is isinstance:
@@ -196,6 +217,11 @@ def py_isinstance(ex, v, cls, st):
     if isinstance(cls, tuple):
         return ex.wrapb(ex.disj([_b(py_isinstance(ex, v, c, st)) for c in cls]))
     if isinstance(v, Sym):
+        h = getattr(ex, 'isinstance_ext', None)
+        if h and not isinstance(v, (SStr, SInt, SBool, STy, LRef)):
+            r = h(v, cls, st)
+            if r is not NotImplemented:
+                return r
         if isinstance(v, SStr):
             return cls is str
         if isinstance(v, SInt):
